@@ -20,7 +20,7 @@ RULE = ("one case = (N from {2,3,4,5,8,17,64,255,1024,4095}, dt log-uniform 1e-1
 ASSUMPTIONS = ["scipy.fft is trusted", "the time step of a grid is its stored times[1]-times[0]",
                "translation tolerance = 1e-10 + 4 eps |offset|/dt * max|f dH/df| (conditioning of dt under the offset)"]
 BUDGET = {"quick": 300, "thorough": 3600}
-KINDS = ["lowpass", "brickwall", "delay", "scalar-only", "unit", "gaussian", "positive-only", "scalar-constant", "smooth", "non-hermitian", "scalar-only-mixed-type", "scalar-only-delay"]
+KINDS = ["lowpass", "brickwall", "delay", "scalar-only", "unit", "gaussian", "positive-only", "scalar-constant", "smooth", "non-hermitian", "scalar-only-mixed-type", "scalar-only-delay", "scalar-constant-complex"]
 
 
 def gen_cases(tier, seed):
@@ -118,6 +118,10 @@ def responses(case, dts):
     if kind == "scalar-constant":
         t = lambda f: 0.5 + 0 * np.asarray(f)
         return (lambda f: 0.5), t, True
+    if kind == "scalar-constant-complex":
+        # a frequency-independent complex gain returned as one number whatever the argument
+        t = lambda f: (0.3 + 0.4j) + 0 * np.asarray(f)
+        return (lambda f: 0.3 + 0.4j), t, True
     if kind == "smooth":
         t = lambda f: (0.5 + 0.5 * np.cos(np.asarray(f) / fc)) * np.exp(1j * np.asarray(f) / (3 * fc))
         return t, t, True
@@ -200,6 +204,12 @@ def run_case(case):
         pass    # the delay is defined through the stored step of *this* grid; covered by (6)
     else:
         v.close("independent of the absolute position of the time grid", np.max(np.abs(out6 - out)) / sc, tol + 8 * EPS * abs(off) / dt * (S + 1), offset_windows=off / (N * dt))
+    # (3b) the same response *object* applied on another sampling step (same number of samples) answers for that step
+    dt_b = dt * float([1.7, 0.31, 2.0, 10.0][int(rng.integers(0, 4))])
+    t_b = np.arange(N) * dt_b
+    out_b = run(vals, times=t_b)
+    ref_b = ref_filter(vals, float(t_b[1] - t_b[0]), truth, fr_)
+    v.close("the same response object re-used on a grid with another step is evaluated at that grid's frequencies", np.max(np.abs(out_b - ref_b)) / sc, tol, N=N, force_real=fr_, dt=dt, dt_second=dt_b)
     # (5) passivity
     if passive:
         v.check(float(np.sum(out ** 2)) <= float(np.sum(vals ** 2)) * (1 + 1e-9) + 1e-300, "|H| <= 1 never increases the energy", ein=float(np.sum(vals ** 2)), eout=float(np.sum(out ** 2)))
